@@ -316,6 +316,36 @@ func GenIngress(rng *rand.Rand, k int) *networking.Ingress {
 	return ing
 }
 
+// GenTCPIngress generates an ingress of a TCP service port: the backend, only the TLS block
+// (the documented way of splitting the TLS of a TCP service into its own ingress), or both;
+// several ingresses share the ports.
+func GenTCPIngress(rng *rand.Rand, k int) *networking.Ingress {
+	ns := world.Namespaces[0]
+	var rules []world.IngRule
+	kind := rng.Intn(3) // 0 backend, 1 tls only, 2 both
+	if kind != 1 {
+		h := pick(rng, []string{"", "", "a.example", "b.example"})
+		rules = append(rules, world.IngRule{Host: h, Paths: []world.IngPath{{Path: pick(rng, []string{"/", "", "/app"}), Type: "Prefix", Service: pick(rng, svcNames[:4]), PortNum: 80}}})
+	}
+	ing := world.Ingress(ns, world.IngressNames[k%len(world.IngressNames)], 10+rng.Intn(20), rules...)
+	ing.Annotations = map[string]string{ann + "tcp-service-port": pick(rng, []string{"7000", "7000", "7001"})}
+	if kind != 0 {
+		t := networking.IngressTLS{SecretName: pick(rng, []string{"tls-valid", "tls-valid", "tls-bad", "tls-absent", ""})}
+		if rng.Intn(2) == 0 {
+			t.Hosts = []string{pick(rng, []string{"a.example", "b.example"})}
+		}
+		ing.Spec.TLS = append(ing.Spec.TLS, t)
+	}
+	if rng.Intn(3) == 0 {
+		a := pick(rng, world.TCPAnnWhitelist)
+		ing.Annotations[ann+a[0]] = a[1+rng.Intn(len(a)-1)]
+	}
+	if rng.Intn(6) == 0 {
+		ing.Annotations[ann+"auth-tls-secret"] = pick(rng, []string{"ca-valid", "ca-missing"})
+	}
+	return ing
+}
+
 var globalKeys = [][]string{
 	{"strict-host", "true", "false"},
 	{"backend-server-slots-increment", "4", "1", "2"},
@@ -438,7 +468,11 @@ func GenCluster(rng *rand.Rand, o Opt) []client.Object {
 	n := 1 + rng.Intn(5)
 	perm := rng.Perm(len(world.IngressNames))
 	for k := 0; k < n; k++ {
-		objs = append(objs, GenIngress(rng, perm[k]))
+		if rng.Intn(6) == 0 {
+			objs = append(objs, GenTCPIngress(rng, perm[k]))
+		} else {
+			objs = append(objs, GenIngress(rng, perm[k]))
+		}
 	}
 	// several objects may carry the same key (pods of two services): keep the last
 	seen := map[string]int{}
@@ -489,6 +523,9 @@ func GenChange(rng *rand.Rand, o Opt, s *world.State) []pipeline.Change {
 		switch k := rng.Intn(24); {
 		case k < 5: // ingress add / replace
 			ing := GenIngress(rng, rng.Intn(len(world.IngressNames)))
+			if rng.Intn(4) == 0 {
+				ing = GenTCPIngress(rng, rng.Intn(len(world.IngressNames)))
+			}
 			if old := ofKind(s, "Ingress"); len(old) >= 6 {
 				ob := pick(rng, old)
 				ing.Namespace, ing.Name = ob.GetNamespace(), ob.GetName()
@@ -614,6 +651,7 @@ func GenHistory(rng *rand.Rand, n int) (Opt, [][]pipeline.Change) {
 	}
 	h := [][]pipeline.Change{first}
 	wcfg := world.Full()
+	wcfg.TCP = true
 	for i := 0; i < n; i++ {
 		var b []pipeline.Change
 		for j, m := 0, 1+rng.Intn(2); j < m; j++ {
@@ -625,6 +663,81 @@ func GenHistory(rng *rand.Rand, n int) (Opt, [][]pipeline.Change) {
 		}
 		if len(b) > 0 {
 			h = append(h, b)
+		}
+	}
+	return o, h
+}
+
+// GenSplitTLS generates the history "the TLS of a TCP service arrives through a separate
+// ingress after the port exists, then unrelated changes": a port with one or two backend
+// ingresses, http ingresses next to them, then the tls-only ingress (secret valid, missing,
+// created later), then changes that rewrite haproxy.cfg or not (new http host, endpoints,
+// global key, the tls ingress updated or deleted, the backend ingress touched).
+func GenSplitTLS(rng *rand.Rand) (Opt, [][]pipeline.Change) {
+	o := Opt{}
+	if rng.Intn(4) == 0 {
+		o.BackendShards = 3
+	}
+	if rng.Intn(3) == 0 {
+		o.DefaultService = "ns1/svc1"
+	}
+	port := pick(rng, []string{"7000", "7001", "9000"})
+	var first []client.Object
+	for _, s := range []string{"svc1", "svc2", "svc3"} {
+		sv, ep, extra := genSvc(rng, 0, s)
+		first = append(first, sv, ep)
+		first = append(first, extra...)
+	}
+	if rng.Intn(3) > 0 {
+		first = append(first, world.TLSSecret("ns1", "tls-valid", "a.example", 0))
+	}
+	back := ing("ns1", "ing1", map[string]string{"tcp-service-port": port}, rule(pick(rng, []string{"", "", "a.example"}), pth("/", "svc1")))
+	first = append(first, back)
+	if rng.Intn(3) == 0 {
+		first = append(first, ing("ns1", "ing5", map[string]string{"tcp-service-port": port}, rule("b.example", pth("/", "svc2"))))
+	}
+	first = append(first, ing("ns1", "ing3", nil, rule("a.example", pth("/", "svc2"))))
+	s := world.NewState(first)
+	h := [][]pipeline.Change{creates(first...)}
+	tlsIng := func() *networking.Ingress {
+		var hosts []string
+		if rng.Intn(3) == 0 {
+			hosts = []string{pick(rng, []string{"a.example", "b.example"})}
+		}
+		i := ingTLS(ing("ns1", "ing2", map[string]string{"tcp-service-port": port}), pick(rng, []string{"tls-valid", "tls-valid", "tls-absent", ""}), hosts...)
+		i.CreationTimestamp = world.Stamp(5 + rng.Intn(20))
+		return i
+	}
+	apply := func(b []pipeline.Change) {
+		s.Apply(b)
+		h = append(h, b)
+	}
+	if rng.Intn(4) == 0 {
+		apply([]pipeline.Change{{Op: pipeline.Update, Obj: churnEndpoints("ns1", "svc2", []int{0, 1}, 0, false)}})
+	}
+	apply(creates(tlsIng()))
+	wcfg := world.Full()
+	for i, n := 0, 1+rng.Intn(4); i < n; i++ {
+		switch rng.Intn(8) {
+		case 0, 1:
+			apply(creates(ing("ns1", world.IngressNames[5+i%2], nil, rule(pick(rng, []string{"b.example", "sub.a.example"}), pth(pick(rng, []string{"/", "/app"}), "svc2")))))
+		case 2:
+			apply([]pipeline.Change{{Op: pipeline.Update, Obj: churnEndpoints("ns1", pick(rng, []string{"svc1", "svc2"}), []int{rng.Intn(4), 4 + rng.Intn(3)}, 0, false)}})
+		case 3:
+			apply([]pipeline.Change{upsert(s, genGlobal(rng))})
+		case 4:
+			apply([]pipeline.Change{{Op: pipeline.Update, Obj: tlsIng()}})
+		case 5:
+			apply([]pipeline.Change{{Op: pipeline.Delete, Obj: tlsIng()}})
+			if rng.Intn(2) == 0 {
+				apply(creates(tlsIng()))
+			}
+		case 6:
+			b := back.DeepCopy()
+			b.Annotations[ann+"tcp-service-proxy-protocol"] = pick(rng, []string{"true", "false"})
+			apply([]pipeline.Change{{Op: pipeline.Update, Obj: b}})
+		default:
+			apply([]pipeline.Change{world.GenChange(rng, wcfg, s)})
 		}
 	}
 	return o, h
